@@ -7,7 +7,7 @@ from sa.engine.cfg import call_name, exc_name, handler_names
 from sa.engine.facts import Bad, F, atom
 from sa.engine.pattern import u, find_all
 from sa.engine.source import norm, own_walk, stmt_of, AnalysisError
-from .common import lexically_inside, enclosing, dominates_all_exits, block_head
+from .common import lexically_inside, enclosing, dominates_all_exits, block_head, validated_first
 
 EXPLANATION = ("TLS streams: the pump between the SSL object and the transport - after want-read, pending output is flushed before the "
                "transport is read, the bytes read are written to the incoming BIO (or EOF is recorded) and the SSL call is retried; after "
@@ -203,9 +203,7 @@ def check(ctx):
             okv = r.value is not None and ast.unparse(r.value) == d
             ctx.ob("R17-c", rcv, "receive returns the decrypted bytes as read", okv, node=r, detail="" if okv else f"`{norm(r)}`", by=(d,))
             ctx.require_at("R17-b", rcv, r, [[d]], instance="an empty read is never returned as data", what="return")
-    first = [s_ for s_ in rcv.node.body if not (isinstance(s_, ast.Expr) and isinstance(s_.value, ast.Constant)) and not isinstance(s_, ast.Pass)]
-    okf = bool(first) and isinstance(first[0], ast.If) and atom(first[0].test) == (f"{mb} < 1", True) and any(isinstance(x, ast.Raise) for x in first[0].body)
-    ctx.ob("R17-c", rcv, "max_bytes < 1 is rejected first", okf, detail="" if okf else "`if max_bytes < 1: raise ValueError` is not the first statement of TLSStream.receive", by=(f"{mb} < 1",))
+    validated_first(ctx, "R17-c", rcv, f"{mb} < 1", "max_bytes < 1 is rejected first")
     snd = ctx.fn("TLSStream.send", TLS)
     it = snd.node.args.args[1].arg
     dominates_all_exits(ctx, "R17-c", snd, f"await self._call_sslobject_method(self._ssl_object.write, {it})", "send writes the whole item through the pump")
